@@ -16,7 +16,8 @@ ASSUMPTIONS = ['request strings are ASCII and non-empty after trimming (the empt
                'reply lines are ASCII; a *correct* reply to QS/QC/QE/PI/QL carries decimal integers (QE codes in '
                '{0,1,2,4,8,16}, QL values in 0..255); other lines that begin with one of those names are outside the alphabet',
                'var_write_int32 values are in the int32 range (OverflowError otherwise: outside the alphabet)',
-               'the only exception a port raises is serial.SerialException']
+               'a port raises serial.SerialException, PortNotOpenError, or a plain OSError/IOError (all four are injected '
+               'at every read and write position); RuntimeError and other classes are outside the alphabet']
 STAGED = []
 
 IGNORED = ('rb', 'r', 'bl')
@@ -62,7 +63,7 @@ def judge_segment(seg, limit):
             problems.append('reads after a raw reboot/bootloader write')
         return None, None, problems
     for i, o in enumerate(reads):
-        if o is None:
+        if F.is_raise(o):
             if i != len(reads) - 1:
                 problems.append('reads continue after an I/O exception')
             return 'read-exception', None, problems
@@ -144,9 +145,11 @@ def oracle(ctx, sc, recs, desc):
                                 key='C05:query:value')
         # ---- no exception
         if r['exc']:
-            F.violate(ctx, f'{name} raises {r["exc"]} ({fault or "no fault"})', where, r['exc'],
-                        'no public request method raises; the failure value is returned',
-                        key=f'C05:{name}:raises')
+            cls = next((e[5] for e in r['events'] if e[0] == 'w' and not e[2]), None) or \
+                next((e[1].key for e in r['events'] if e[0] == 'r' and F.is_raise(e[1])), None)
+            F.violate(ctx, f'{name} raises {r["exc"]} ({fault or "no fault"}' + (f', port raised {cls}' if cls else '') + ')',
+                      where, r['exc'], 'no public request method raises; the failure value is returned',
+                      key='F11-reboot-oserror-escapes' if F.escaped_known(r) else f'C05:{name}:raises')
             latched = latched_now
             continue
         # ---- failure recorded and reported / success
@@ -193,15 +196,16 @@ def run(ctx):
         data = json.load(open(ctx.replay))
         items = [v['input'] for v in data.get('violations', [])] + [d['input'] for d in data.get('model_vs_implementation', [])]
         scs = [F.from_json({k: v for k, v in it.items() if k != 'call_index'}) for it in items if 'calls' in it]
-        F.run_scenarios(ctx, scs, oracle, 'C05')
+        F.run_scenarios(ctx, scs, oracle, 'C05', F.ignore_known)
         return
     F.check_method_table(ctx)
     params = F.check_params(ctx)
     if params and (params['retryCmd'] != F.RETRY_STATEMENT or params['retryQry'] != F.RETRY_STATEMENT):
         ctx.notes.append(f'retry limits in the source ({params["retryCmd"]}, {params["retryQry"]}) differ from the statement (25)')
     F.check_primitives(ctx, rng, ctx.n(1500))
-    F.run_scenarios(ctx, F.corpus_scenarios('C05'), oracle, 'C05')
-    F.run_scenarios(ctx, F.request_string_scenarios(rng), oracle, 'C05')
-    F.run_scenarios(ctx, F.retry_scenarios(), oracle, 'C05')
-    F.run_scenarios(ctx, F.fault_scenarios(), oracle, 'C05')
-    F.run_scenarios(ctx, F.random_scenarios(rng, ctx.n(4000), maxlen=12), oracle, 'C05')
+    F.probe_connect_exceptions(ctx)
+    F.run_scenarios(ctx, F.corpus_scenarios('C05'), oracle, 'C05', F.ignore_known)
+    F.run_scenarios(ctx, F.request_string_scenarios(rng), oracle, 'C05', F.ignore_known)
+    F.run_scenarios(ctx, F.retry_scenarios(), oracle, 'C05', F.ignore_known)
+    F.run_scenarios(ctx, F.fault_scenarios(), oracle, 'C05', F.ignore_known)
+    F.run_scenarios(ctx, F.random_scenarios(rng, ctx.n(4000), maxlen=12), oracle, 'C05', F.ignore_known)
